@@ -125,11 +125,4 @@ def run(ctx):
     cmp_fn(ctx, 'SHA1.__call__', 'crysp/sha.py', 'SHA1.__call__', H.HASH_CALL)
     cmp_fn(ctx, 'MD4.__call__', 'crysp/md.py', 'MD4.__call__', H.HASH_CALL)
 
-    # HMAC is only as good as the hashes it is instantiated with: run the hash rule sets as dependencies
-    from . import C01, C11
-    ctx.rule('C13-R6 dependency')
-    before = len(ctx.obs)
-    C01.run(ctx)
-    C11.run(ctx)
-    for o in ctx.obs[before:]:
-        o.rule = 'C13-R6 dependency: ' + o.rule
+    dependencies(ctx, ['crysp/hmac.py', 'crysp/md.py', 'crysp/sha.py', 'crysp/blake.py', 'crysp/padding.py'], 'C13')
